@@ -63,7 +63,24 @@ SweepShape(j) == LET L == Lengths[(j + 1) \div 2] IN
                  IF j % 2 = 1 THEN [n |-> "sweep", op |-> "put", k |-> 8, v |-> L - EntryHdr - 8 - 4]
                  ELSE [n |-> "sweep", op |-> "del", k |-> L - EntryHdr, v |-> 0]
 SweepN == 2 * Len(Lengths)
-GSweep == /\ Sweep /\ ~done /\ Len(appended) < SweepN /\ done' = done
+(* ---- alignment sweep (SweepRanges = AlignRanges): every file starts with one large delete whose end offset runs through
+        the range around 65536 bytes - the size of the reader's buffer - so that the header of the small record behind it
+        starts 0, 1, 2, ... bytes in front of / behind that boundary; two more small entries, then the next file ---- *)
+AlignRanges == {<<0, 0>>}
+AlignMode == SweepRanges = AlignRanges
+AlignPads == 40                                   \* payloads 65490 .. 65529 of the leading delete
+AlignLen == 4 * AlignPads
+GAlign == /\ Sweep /\ AlignMode /\ ~done /\ Len(h) < AlignLen /\ done' = done
+          /\ LET i == Len(h) + 1
+                 r == (i - 1) \div 4
+                 ph == (i - 1) % 4
+                 pad == [n |-> "sweep", op |-> "del", k |-> 65490 + r - EntryHdr, v |-> 0]
+             IN IF ph = 0 THEN AppendOne(pad) /\ h' = Append(h, Step("append", <<pad>>, next, "none"))
+                ELSE IF ph = 1 THEN AppendOne(S("small")) /\ h' = Append(h, Step("append", <<S("small")>>, next, "none"))
+                ELSE IF ph = 2 THEN AppendOne(S("put11")) /\ h' = Append(h, Step("append", <<S("put11")>>, next, "none"))
+                ELSE NewFile /\ h' = Append(h, Step("rotate", <<>>, 0, "disk"))
+
+GSweep == /\ Sweep /\ ~AlignMode /\ ~done /\ Len(appended) < SweepN /\ done' = done
           /\ LET j == Len(appended) + 1 IN
              IF j % 60 = 0 /\ h # <<>> /\ h[Len(h)].a # "rotate"
              THEN NewFile /\ h' = Append(h, Step("rotate", <<>>, 0, "disk"))
@@ -78,10 +95,10 @@ Final(o) == [a |-> "final", sh |-> <<>>, seq |-> 0, next |-> next, o |-> o,
              per |-> IF o = "disk" THEN [f \in 1..Len(files) |-> LET r == ReadFile(f) IN [i \in 1..Len(r.out) |-> r.out[i].id]] ELSE <<>>,
              from |-> IF o = "from" THEN [j \in 1..(next + 2) |-> LET es == EntriesFrom(j - 1) IN [i \in 1..Len(es) |-> es[i].id]] ELSE <<>>,
              nrec |-> <<>>]
-GEmit == /\ ~done /\ (IF Sweep THEN Len(appended) = SweepN ELSE Len(h) = GenLen)
+GEmit == /\ ~done /\ (IF Sweep THEN (IF AlignMode THEN Len(h) = AlignLen ELSE Len(appended) = SweepN) ELSE Len(h) = GenLen)
          /\ PrintT(<<"BEHAVIOUR", ToJson(h \o <<Final("disk"), Final("from")>>)>>)
          /\ done' = TRUE /\ UNCHANGED <<wvars, h>>
 
-GNext == GEmit \/ GAppend \/ GBatch \/ GRotate \/ GSync \/ GFrom \/ GClose \/ GReuse \/ GNewLog \/ GSweep
+GNext == GEmit \/ GAppend \/ GBatch \/ GRotate \/ GSync \/ GFrom \/ GClose \/ GReuse \/ GNewLog \/ GSweep \/ GAlign
 GSpec == GInit /\ [][GNext]_gvars
 =============================================================================
